@@ -58,9 +58,15 @@ package types
 //@ func (cb TSSCallback) OnSigningFailed
 //@ trusted
 //@ modifies Other, Bank
+// (call history of the completion callback: for which signing it was made, and with which member list - the owner module
+// pays exactly the members it is handed)
+//@ ghost Count_OnSigningCompleted map[uint64]int
+//@ ghost CompletedWith []sdk.AccAddress
 //@ func (cb TSSCallback) OnSigningCompleted
 //@ trusted
-//@ modifies Other, Bank
+//@ counts signingID
+//@ modifies Other, Bank, CompletedWith
+//@ ensures CompletedWith == assignedMembers
 // the time-out callback penalises idle members: through the tss keeper it rewrites member records (activity flag) only
 //@ func (cb TSSCallback) OnSigningTimeout
 //@ trusted
